@@ -6,6 +6,7 @@ the broker driver reads and prints them; cookies are `c<k>` with `k` taken liter
 -/
 import Driver.BrokerCmd
 import Aldrin.Model.Client
+import Aldrin.Model.System
 
 namespace Aldrin.Driver
 open Aldrin Aldrin.Broker Aldrin.Client
@@ -117,7 +118,12 @@ def clientCmd (st : CStates) (cmd : String) (args : List String) : Option (CStat
     let cid ← cid.toNat?
     let s ← AL.find? cid st
     let r ← (if toks = ["other", "2"] then some none else (parseReqWith litCookie toks).map some)
-    pure (AL.insert cid (sent s r) st, "ok")
+    -- the hypothesis of the composed-system theorems (Props/C06.lean): a request never reuses a serial that is
+    -- still in the map of its kind; a trace of the real client that does is answered differently from `ok`
+    let fresh := match r with
+      | some r => Aldrin.System.freshSerial s r
+      | none => true
+    pure (AL.insert cid (sent s r) st, if fresh then "ok" else "reused-serial")
   | "cr", cid :: toks => do
     let cid ← cid.toNat?
     let s ← AL.find? cid st
